@@ -527,7 +527,7 @@ func TestShapes(t *testing.T) {
 		}
 		r["again_differs"] = differs
 		var generic ttlv.Value
-		dg := decodeShape(s.Enc, append([]byte(nil), orig...), &generic)
+		dg := decodeShape(s.Enc, append([]byte(nil), orig...), &generic, func() any { return new(ttlv.Value) })
 		dg.Bin = ""
 		r["generic"] = dg
 		if s.Target == "RequestMessage" {
